@@ -30,6 +30,18 @@ CHECKS = [
         technique='property-based testing (Hypothesis): generated differentiable DAGs vs reference automatic differentiation (jets)',
     ),
     dict(
+        id='C10',
+        text='Monte-Carlo: generated integrands over 1-3 named draw variables (deterministic user-defined generators and '
+             'native types, names whose sorted order differs from order of appearance), R in 2..24, are evaluated through '
+             'get_value_c and BIOGEME.calculate_likelihood; recording wrappers show that slab k of the draw table is exactly '
+             'what the generator of the k-th variable\'s declared type produced, the value is the arithmetic mean over draws '
+             'of the reference semantics, and non-zero seeds reproduce bit for bit. Integrate is compared with adaptive '
+             'quadrature, Derive with reference automatic differentiation. Exploration over programs x inputs x configurations.',
+        note='Recording is done by replacing catalogue entries inside the check process; integrands restricted to g(w) x normal '
+             'density with moderate curvature (quadrature accuracy 1e-6); engine defects of shared pieces are listed known findings.',
+        technique='property-based testing (Hypothesis): generated integrands vs reference mean/quadrature/AD, recorded generator output',
+    ),
+    dict(
         id='C11',
         text='Generated search over all 21 catalogue entries x sizes x seeds and over the quantile transform on '
              '(0,1) incl. extreme tails, judged against an independently coded radical inverse, stratum counting, '
